@@ -205,10 +205,45 @@ def freeze(ds):
     return ds
 
 
+_CSV_DIR = []
+
+
+def csv_path(spec):
+    """the CSV file of a {"csv": True} spec (written once per process into a private directory; the handler re-opens it
+    for every iteration, so every request reads its own, freshly allocated, list records)"""
+    import csv
+    import os
+    import tempfile
+
+    if not _CSV_DIR:
+        import atexit
+        import shutil
+
+        _CSV_DIR.append(tempfile.mkdtemp(prefix="c13csv-"))
+        owner = os.getpid()
+        atexit.register(lambda d=_CSV_DIR[0]: shutil.rmtree(d, ignore_errors=True) if os.getpid() == owner else None)
+    _, name, attrs, cols, nrows, _ = spec["vars"][0]
+    path = os.path.join(_CSV_DIR[0], "%08x.csv" % zlib.crc32(repr(spec).encode()))
+    if not os.path.exists(path):
+        columns = [_vals(c, dt, nrows).tolist() for c, dt, _ in cols]
+        with open(path + ".tmp", "w", newline="") as f:
+            w = csv.writer(f, quoting=csv.QUOTE_NONNUMERIC)
+            w.writerow([c for c, _, _ in cols])
+            for i in range(nrows):
+                w.writerow([float(c[i]) if not isinstance(c[i], str) else c[i] for c in columns])
+        os.replace(path + ".tmp", path)
+    return path
+
+
 def make_app(spec, frozen=True):
     from pydap.handlers.lib import BaseHandler
     from pydap.wsgi.ssf import ServerSideFunctions
 
+    if spec.get("csv"):
+        from pydap.handlers.csv import CSVHandler
+
+        handler = CSVHandler(csv_path(spec))
+        return ServerSideFunctions(handler), handler, handler.dataset
     ds = build_dataset(spec)
     if frozen:
         freeze(ds)
@@ -244,6 +279,8 @@ FIXED_REQUESTS = [
     "/d.dods?mean(s,0)", "/d.dods?s.w&s.w=\"bc\"", "/d.dods?a,a", "/d.dods?g.gx,g.g", "/d.ascii?s&s.i<4&s.i>0",
     # shorthand names (a nested variable named without its container) beside a function call
     "/d.dods?p,mean(b,0)", "/d.dds?q,mean(g,1)", "/d.ascii?r,mean(a)", "/d.dods?i,mean(b,1)",
+    # the DMR of a constrained dataset
+    "/d.dmr?a[1:2:7]", "/d.dmr?s.i&s.i>1", "/d.dmr?g.gx,st.in", "/d.dmr?mean(b,0)", "/d.dmr?nope",
 ]
 
 
@@ -313,6 +350,20 @@ def nested_requests(spec, per_seq=None, rng=None):
             rs = rng.sample(rs, min(per_seq, len(rs)))
         out += rs
     return out
+
+
+# the CSV handler: a file-backed lazy sequence named "sequence"; `CSVData.stream` re-opens the file per iteration and
+# csv.reader yields LISTS
+CSV_SPEC = {"name": "d", "attrs": {"title": "csv"}, "csv": True,
+            "vars": [["lseq", "sequence", {}, [["index", "f8", None], ["temperature", "f8", None], ["site", "S", None]], 7, False]]}
+
+CSV_REQUESTS = [
+    "/d.dds", "/d.das", "/d.dods", "/d.ascii", "/d.dmr", "/d.ver", "/d.dods?sequence.index", "/d.ascii?sequence.site,sequence.index",
+    "/d.dods?sequence&sequence.index>3", "/d.ascii?sequence.site&sequence.temperature<7&sequence.index>=2",
+    "/d.dods?sequence[1:2:5]", "/d.ascii?sequence.site[0:2]", "/d.dods?sequence&sequence.nope>1", "/d.dods?sequence.site&sequence.site=\"bc\"",
+    "/d.dods?sequence&sequence.index>sequence.temperature", "/d.dds?sequence.temperature", "/d.dods?sequence[x]", "/d.dods?index",
+    "/d.dods?sequence&bounds(0,9,0,9,0,9,00Z01JAN1970,00Z01JAN1970)",
+]
 
 
 # aliasing that immutable fixtures cannot show: two arrays that are strided views of a third one's buffer, two grids
